@@ -329,6 +329,15 @@ def run(chk):
                 v = H.elems(path.value)[0] if not isinstance(path.value, (int, float)) else path.value
                 if not isinstance(v, F64):
                     continue
-                chk.add(f'{fn}(d={d}, x): no NaN / inf for every binary64 x in [bound, bound(1+2^-30)] (path {pi})', ap, ir.band(ir.bnot(v.isnan().n), ir.bnot(v.isinf().n)),
-                        key=f'{fn} not finite next to the separability boundary', replay=rp, fallback_payloads=fb, kind='probe_forall', timeout_s=120)
+                mono = chk.add(f'{fn}(d={d}, x): no NaN / inf for every binary64 x in [bound, bound(1+2^-30)] (path {pi}) [monolithic]', ap, ir.band(ir.bnot(v.isnan().n), ir.bnot(v.isinf().n)),
+                               key=f'{fn} not finite next to the separability boundary', replay=rp, fallback_payloads=fb, kind='probe_forall', timeout_s=40 if quick else 150)
+                # the same claim by solver-checked one-operation interval lemmas (composition bounds the result, hence finite)
+                from symnp import fprange
+                lemmas, root_iv = fprange.range_lemmas(v.n, {xf.n.val: (b, b * (1 + 2.0 ** -30))}, path.pc, path.ctx.aux, f'c18{fn[4]}{d}{pi}')
+                if root_iv is None:
+                    mono.meta['soft'] = False          # no interval proof on this path: the monolithic query has to decide
+                else:
+                    for lab, asm, clm in lemmas:
+                        chk.add(f'{fn}(d={d}) boundary window (path {pi}) lemma: {lab}', asm, clm, key=f'{fn} not finite next to the separability boundary', replay=rp, fallback_payloads=fb)
+                    chk.samples.append({'function': fn, 'd': d, 'path': pi, 'result_interval_proved': list(root_iv), 'lemmas': len(lemmas)})
     chk.solve(timeout_s=60 if quick else 300)
